@@ -13,7 +13,9 @@ EXPLANATION = (
     "non-raising path, inside the lock region that picked the worker, creates a worker only under the THREADPOOL_SIZE bound and otherwise raises NoFreeWorkersError, which the "
     "accept path answers with denyConnection (refusal handshake with a reason, socket closed on every path); the worker loop "
     "clears its slot before returning to the pool and ends on a None job; close hands None to every worker and empties both "
-    "sets. Not decided: races inside the interpreter's set operations, liveness of close, timing."
+    "sets."
+    "Also decided: the pool's set discipline (idle first, chosen worker counted busy, new worker started, finished worker leaves busy and is idle-or-retired under the minimum test), the worker waits for and clears its event each round, nothing fallible runs in denyConnection outside its try/finally and nothing escapes it, the refusal is encodable and its header names its encoding. "
+    "Not decided: races inside the interpreter's set operations, liveness of close, timing."
 )
 
 LOCK = "self.count_lock"
@@ -242,8 +244,17 @@ def run(ctx, R, tier):
     for o in R8.obs:
         if o.key == "C08-R5|client|handshake-reply-decoded-by-reply-serializer":
             R.add("C18-R3", "client|refusal-decodable", o.desc + " (the pool-full refusal is sent before the daemon adopts the client's serializer)", o.ok, o.loc, o.detail)
+        if o.key == "C08-R4|_handshake|header-names-the-encoding-serializer":
+            R.add("C18-R3", "_handshake|refusal-header-names-its-encoding", o.desc + " (a refused client must be able to decode the reason)", o.ok, o.loc, o.detail)
         if o.key == "C08-R4|_handshake|failure-answer-serializer-known":
             R.add("C18-R3", "_handshake|refusal-encodable", o.desc + " (the pool-full refusal is such a failure answer)", o.ok, o.loc, o.detail)
+    # nothing that can fail runs in denyConnection outside the try/finally that closes the refused socket
+    outside = [st for st in dcf.node.body if not isinstance(st, ast.Try) and not (isinstance(st, ast.Expr) and isinstance(st.value, ast.Constant))]
+    fallible = [st for st in outside if not (isinstance(st, ast.Expr) and isinstance(st.value, ast.Call) and unparse(st.value.func).startswith("log.")
+                                             and not any(isinstance(x, (ast.Subscript, ast.Call)) for a in st.value.args + [k.value for k in st.value.keywords] for x in ast.walk(a)))]
+    R.check(not fallible, "C18-R3", "denyConnection|nothing-fallible-outside-the-try", "outside the try/finally there is at most a log call over plain names and constants", dcf.loc(),
+            "`%s` runs before the try/finally that answers and closes the refused socket and can raise (e.g. indexing the peer address, which is '' for unix sockets): the refused "
+            "client gets no answer, the socket stays open and the error ends the accept loop" % (unparse(fallible[0], 70) if fallible else ""))
     desc = es.escapes(dcf.qualname)
     R.check(not desc, "C18-R3", "denyConnection|contains-all-errors", "no exception of the refusal handshake leaves denyConnection (it runs in the accept loop)", dcf.loc(),
             "denyConnection lets %s escape (%s): raised while a refused client is answered, it ends the accept loop, and later connections are neither served nor refused" % (
